@@ -24,6 +24,11 @@ type runTracerouteOnceFnType func(ctx context.Context, params TracerouteParams, 
 var runTracerouteOnceFn = runTracerouteOnce
 
 func runTracerouteOnce(ctx context.Context, params TracerouteParams, destinationPort int) (*result.TracerouteRun, error) {
+	// TTLs are a single byte on the wire: reject values that would otherwise be silently truncated below
+	if params.MinTTL < 1 || params.MinTTL > 255 || params.MaxTTL < 1 || params.MaxTTL > 255 {
+		return nil, fmt.Errorf("invalid TTL range [%d, %d]: TTLs must be between 1 and 255", params.MinTTL, params.MaxTTL)
+	}
+
 	var trRun *result.TracerouteRun
 	switch params.Protocol {
 	case "udp":
